@@ -187,3 +187,23 @@ CHECKS["C18"] = dict(
     parts=[P("cleanup", "^TestC18Cleanup$", shards=(6, 16), bins=("partial-aftersun",)), P("mirror", "^TestC18Mirror$", shards=(2, 8), bins=("partial-aftersun",))],
     floor=10,
 )
+
+CHECKS["C19"] = dict(
+    level="exploration",
+    technique="the built cmd/skylight binary (plain HTTP, loopback) queried with raw HTTP/1.1 requests; every 200 body is looked up by content hash in a precomputed index of the directory the addressed prefix is configured for (canary files outside), layout URLs are compared with the exact file and prescribed headers; an unmodified sunlight.Client verifies whole logs through the server",
+    text="Real directories (three logs of different sizes on a host-only, a path-prefixed and a deep path prefix; a witness directory with a plain and a mirrored origin incl. mirror tiles) are written by the real sequencer/witness on LocalBackend; canary files sit outside every configured directory. Requests: every existing file through its layout URL under the right and a wrong host, non-layout files (dot-file), layout URLs of non-existing coordinates, ~45 traversal/confusion targets per prefix (.., %2e%2e, %2f, %5c, //, /./, trailing slash, directories, tile/00, .p/0, .p/256, other log's directory, NUL, case, query, 6000-byte paths), origin confusion on the witness routes (.., mirror, encoded separators), absolute-form targets, meta endpoints, 200 anonymous requests for the 429 path. 200 => body is bytewise a regular file inside the directory configured for the addressed prefix, never canary content or a listing, for layout URLs exactly the named file with Content-Type, Content-Encoding, Cache-Control and CORS as prescribed. End to end, an unmodified client reads the checkpoint and all entries of each log through the server and the yielded entries equal the ground truth.",
+    note="TLS/ACME mode is not exercised (plain HTTP mode of the same handlers). Trusted: raw HTTP client of the harness, content index.",
+    design_ref="DESIGN.md section 3, C19",
+    parts=[P("serve", "^TestC19Serve$", shards=(1, 4), bins=("skylight",))],
+    floor=300,
+)
+
+CHECKS["C20"] = dict(
+    level="exploration",
+    technique="one running cmd/skylight binary polled on /health while the harness mutates its real directories; expected status from a reference predicate over the injected breaks; every condition must flip the answer alone",
+    text="Directories as in C19 (one log marked staging). Freshness is wall-clock-proof: fresh checkpoints are signed by the harness one hour ahead, stale ones one hour behind; the read-only branch uses an end date 30 days in the past. Each condition is broken alone and in seeded pairs/triples, then restored: log checkpoint missing / truncated / foreign key / other origin / stale, metadata missing / unparsable, read-only with no final tree / wrong root / size / timestamp / correct final tree (must report read-only, not failure); witness checkpoint missing / truncated / foreign key / checkpoint of another origin under this hash; mirror checkpoint missing / truncated / foreign key, right-edge tile missing / flipped, mirror ahead of pending, pending unverifiable; witness.v0.json and mirror.v0.json missing / no keys / foreign keys / unparsable. Expected status = 200 iff no non-staging condition is broken; for a single break the body must name the entry (short name, origin or origin hash) as failing; healthy logs still report OK; staging breaks are reported as ignored; restoring returns to 200.",
+    note="The staging flag of witnesses is not varied. In break combinations only the status is judged (a broader failure may mask per-log lines).",
+    design_ref="DESIGN.md section 3, C20",
+    parts=[P("health", "^TestC20Health$", shards=(1, 8), bins=("skylight",))],
+    floor=60,
+)
